@@ -471,7 +471,7 @@ impl Constraint {
                 // from randomly flipping which side of the line the point is on.
                 let px = current_assignments[layout.index_of(point.id_x())];
                 let py = current_assignments[layout.index_of(point.id_y())];
-                let (a, b, c) = equation_of_line(current_assignments, line, layout);
+                let (a, b, _c) = equation_of_line(current_assignments, line, layout);
 
                 // The above equation is a division, so make sure not to divide by zero.
                 let denominator = libm::hypot(a, b);
@@ -481,7 +481,13 @@ impl Constraint {
                     *degenerate = true;
                     return;
                 }
-                let actual_distance = (a * px + b * py + c) / denominator;
+                // A.px + B.py + C, written relative to the line's first point (C = -(A.p0x + B.p0y)).
+                // C itself is a difference of products of absolute coordinates; far from the origin
+                // its rounding error (1e-4 at coordinates around 1e6) is much larger than the
+                // convergence tolerance and the solver could not converge.
+                let p0x = current_assignments[layout.index_of(line.p0.id_x())];
+                let p0y = current_assignments[layout.index_of(line.p0.id_y())];
+                let actual_distance = (a * (px - p0x) + b * (py - p0y)) / denominator;
 
                 // Residual is then easy to calculate, it's just the gap between actual and target.
                 let residual = actual_distance - target_distance;
